@@ -7,6 +7,10 @@ Driver glue for the adapters:
 `(ospiel kind script calls implTrace)`        calls: `(r)` | `(s (acts…))`;
      trace item `(res ((op entry)…))`, res = `(ok infoState legal current rewards stepType)` | `(err kind)`
 reply `(modelTrace specOnModel specOnImpl)`.
+`(ospielx kind script calls implTrace)`       calls: `(r)` | `(s (acts…))` | `(p idx)` (`current_player = idx`);
+     trace item as for `ospiel`, or `(set ok)` | `(set rejected)` | `(set crash)` for a setter call;
+     reply `(modelTrace weakOnModel strictOnImpl weakOnImpl)`: `specC15Xw` (what is proved) on the model's
+     trace, `specC15X` (the property) and `specC15Xw` on the implementation's.
 -/
 namespace Abmarl
 namespace AdaptersDriver
@@ -120,6 +124,43 @@ def handleOS (args : List Val) : Option Val := do
         | none => .int (-2)
     pure (.list [.list (tr.map encOSCall), b2i (spec tr), is])
   | _ => none
+
+/-! OpenSpiel with the `current_player` setter -/
+def osIn? (v : Val) : Option (OSIn Int) :=
+  match v with
+  | .list [.atom "r"] => some .reset
+  | .list [.atom "s", a] => a.ints?.map .step
+  | .list [.atom "p", a] => a.nat?.map .setCurrent
+  | _ => none
+
+def encOSOut : OSOut Int (List Int) (List Int) → Val
+  | .ts c => encOSCall c
+  | .set (.ok _) => .list [.atom "set", .atom "ok"]
+  | .set (.error e) => .list [.atom "set", .atom (errStr e)]
+
+def oso? (v : Val) : Option (OSOut Int (List Int) (List Int)) :=
+  match v with
+  | .list [.atom "set", .atom "ok"] => some (.set (.ok ()))
+  | .list [.atom "set", .atom c] => some (.set (.error (errOf c)))
+  | v => (osc? v).map .ts
+
+def handleOSX (args : List Val) : Option Val := do
+  match args with
+  | [k, sc, calls, impl] =>
+    let k ← kind? k
+    let sc ← script? sc
+    let calls ← (← calls.list?).mapM osIn?
+    let S := stubSim sc
+    let tr := osRunX S k { m := mgrInit ({} : StubSt) false [] } calls
+    let implV ← impl.list?
+    let judged : Val × Val :=
+      if implV.isEmpty && !calls.isEmpty then (.int (-1), .int (-1))
+      else match implV.mapM oso? with
+        | some it => (b2i (specC15X k sc.n S.learning calls it), b2i (specC15Xw k sc.n S.learning calls it))
+        | none => (.int (-2), .int (-2))
+    pure (.list [.list (tr.map encOSOut), b2i (specC15Xw k sc.n S.learning calls tr), judged.1, judged.2])
+  | _ => none
+
 
 end AdaptersDriver
 end Abmarl
